@@ -80,7 +80,7 @@ def spurrier(h):
     from cardillo.math import Exp_SO3_quat, Spurrier
     P = h.quat("P")
     R = Exp_SO3_quat(P)
-    quat = Spurrier(R)
+    quat = h.finite("Spurrier divides by nothing that can vanish (every rotation matrix, half turns included)", lambda: Spurrier(R))
     h.eq("Spurrier: unit quaternion", quat @ quat, 1.0)
     h.eq("Spurrier: Exp_SO3_quat(quat) = R", Exp_SO3_quat(quat), R)
     h.eq("Spurrier: non-normalising map agrees", Exp_SO3_quat(quat, normalize=False), R)
